@@ -138,7 +138,7 @@ func trsXValue(w *pdf.Writer, i int, sel int) (pdf.Object, string) {
 	is := strconv.Itoa(i)
 	payload := pdf.String("value of " + is)
 	pstr := "(" + hexWire([]byte(payload)) + ")"
-	switch sel % 5 {
+	switch sel % 7 {
 	case 0:
 		return put(pdf.Dict{"Payload": payload, "I": pdf.Integer(i)}), "<< /I " + is + " /Payload " + pstr + " >>"
 	case 1:
@@ -148,6 +148,10 @@ func trsXValue(w *pdf.Writer, i int, sel int) (pdf.Object, string) {
 	case 3:
 		inner := put(pdf.Dict{"Leaf": pdf.Integer(i)})
 		return put(pdf.Dict{"Next": inner, "S": payload}), "<< /Next << /Leaf " + is + " >> /S " + pstr + " >>"
+	case 5: // the key is present, its value is the null object
+		return nil, "null"
+	case 6: // a nil Array is written as null
+		return pdf.Array(nil), "null"
 	}
 	return pdf.Integer(i), is
 }
@@ -166,7 +170,7 @@ func trsRunXCase[K cmp.Ordered](api *trsTreeAPI[K], x *trsXCase, keys []K) (fail
 	r := &Rand{s: x.seed ^ 0x9e3779b97f4a7c15}
 	sels := make([]int, len(keys))
 	for i := range sels {
-		sels[i] = r.Intn(5)
+		sels[i] = r.Intn(7)
 	}
 	finish := func(w *pdf.Writer) {
 		pages := w.Alloc()
